@@ -54,6 +54,27 @@ def dag_stream(rng, n, overridable_every=0, start=0):
         yield c
 
 
+def alias_stream(rng, n=None):
+    """Overridable defaults (initializers that are graph inputs) reaching a foldable node through a value whose symbolic
+    value is the graph input: every variant of G.ALIAS_VARIANTS at every seed (n: at least that many cases)."""
+    n = max(n or 0, len(G.ALIAS_VARIANTS))
+    for i in range(n):
+        try:
+            yield G.gen_overridable_alias(rng, i)
+        except Exception as e:  # a generator bug must not look like a finding
+            yield ("generator-error", f"{type(e).__name__}: {e}")
+
+
+def pass_family_stream(rng, n=None):
+    """models aimed at the onnx_ir stages (CSE / DCE / lift / dedup): every variant of G.PASS_VARIANTS at every seed"""
+    n = max(n or 0, len(G.PASS_VARIANTS))
+    for i in range(n):
+        try:
+            yield G.gen_pass_case(rng, i)
+        except Exception as e:  # a generator bug must not look like a finding
+            yield ("generator-error", f"{type(e).__name__}: {e}")
+
+
 def corpus_stream(rng, pid):
     """Minimised past failures (corpus/<pid>/*.onnx), run before the fresh cases.  Feeds are derived from the declared
     input types; initializers that are graph inputs are the overridable ones."""
